@@ -5,6 +5,9 @@
 #include "hazard_pointer.h"
 #include "rt.h"
 
+// every piece of per-execution state lives in one section so that the in-process (libFuzzer) front end can reset it
+#define DSVAR __attribute__((section("ds_state")))
+
 #define HCELLS 4
 #define HMAXN 4096
 typedef struct hnode {
@@ -14,18 +17,18 @@ typedef struct hnode {
 } hnode_t;
 
 static _Atomic(hazard_pointer_thread_record_t*) hp_head;
-static hazard_pointer_thread_record_t* hp_rec[MAX_FIBERS + 2];
+static DSVAR hazard_pointer_thread_record_t* hp_rec[MAX_FIBERS + 2];
 static _Atomic(hnode_t*) cell[HCELLS];
-static int hp_k;
-static hnode_t* held[MAX_FIBERS + 2][8];  // validated pointer per slot (harness view)
+static DSVAR int hp_k;
+static DSVAR hnode_t* held[MAX_FIBERS + 2][8];  // validated pointer per slot (harness view)
 // ghost
-static uint64_t hclock;
-static uint64_t n_retire_t[HMAXN], n_reclaim_t[HMAXN];
-static int n_owner[HMAXN];
-static uint64_t prot_t[MAX_FIBERS + 2][8];
-static long prot_id[MAX_FIBERS + 2][8];
-static long next_id = 1;
-static long h_validated, h_protected_at_scan, h_reclaimed, h_retired, h_derefs, h_late_reg;
+static DSVAR uint64_t hclock;
+static DSVAR uint64_t n_retire_t[HMAXN], n_reclaim_t[HMAXN];
+static DSVAR int n_owner[HMAXN];
+static DSVAR uint64_t prot_t[MAX_FIBERS + 2][8];
+static DSVAR long prot_id[MAX_FIBERS + 2][8];
+static DSVAR long next_id = 1;
+static DSVAR long h_validated, h_protected_at_scan, h_reclaimed, h_retired, h_derefs, h_late_reg;
 
 GHOST static long gh_new_id(void) {
   vs_rt_enter();
@@ -74,6 +77,8 @@ GHOST static void gh_threshold_check(int t, hazard_pointer_thread_record_t* r) {
     vs_violation("garbage_unbounded", "thread %d: %zu retired nodes pending, threshold %zu", t, r->retired_count, (size_t)r->retire_threshold);
   vs_rt_exit();
 }
+
+void hz_reset(void) { next_id = 1; }
 
 static void hp_gc(void* gc_data, hazard_node_t* node) {
   (void)gc_data;
